@@ -420,7 +420,7 @@ def emit_and_replay(run, module, cfg, name, harness_cmd, timeout=900, header=Non
 
 # ----------------------------------------------------------------------------- impl -> spec trace validation
 
-def validate_trace(run, module, cfg, name, trace_path, timeout=900, key=None):
+def validate_trace(run, module, cfg, name, trace_path, timeout=900, key=None, linear=True):
     """Runs the Trace_* specification over a recorded ndjson trace. Returns TlcResult or None when the
     trace was rejected / an invariant failed (a mismatch is recorded)."""
     nlines = sum(1 for _ in open(trace_path))
@@ -469,7 +469,7 @@ def validate_trace(run, module, cfg, name, trace_path, timeout=900, key=None):
     if "Model checking completed. No error has been found." not in out:
         idx = out.find("Error:")
         raise ToolError("TLC failed validating trace %s: %s" % (trace_path, out[idx: idx + 3000] if idx >= 0 else out[-2000:]))
-    if r.distinct != nlines + 1:
+    if linear and r.distinct != nlines + 1:
         raise ToolError("trace %s: %d events but %d states" % (trace_path, nlines, r.distinct))
     r.ok = True
     return r
